@@ -239,7 +239,7 @@ class C09(fw.Property):
     coq_props = "Props/C09.v"
     gen_jobs = []
     model_imports = ["Verif.Model.C09", "Verif.Model.C09Stack"]
-    quick_budget = 300
+    quick_budget = 240
     thorough_budget = 8000
     design_ref = "DESIGN.md section 14"
     technique = ("Coq proofs over an executable model of the rendering decision, the two Pipes of a request (callbacks defunctionalised) and the "
